@@ -450,15 +450,15 @@ class Capsule(Family):
     def oracle(self, case, obs):
         rules = case["rules"]
         seen = obs["rules_seen"]
-        # what is written is what is enforced (also for the TOML route)
-        want = None if (rules is None or (case["via"] == "toml" and not rules)) else [[p, bool(q), (None if f is None else sorted(f))] for p, q, f in rules]
-        if seen != want:
-            return ("config-unfaithful", f"rules configured via {case['via']}: written {want}, enforced {seen}")
         found = self._failures(case, obs)
         # a known finding must not hide a different failure in the same capsule
         for f in found:
             if f[0] != "prefix-inside-name":
                 return f
+        # what is written is what is enforced (also for the TOML route)
+        want = None if (rules is None or (case["via"] == "toml" and not rules)) else [[p, bool(q), (None if f is None else sorted(f))] for p, q, f in rules]
+        if seen != want:
+            return ("config-unfaithful", f"rules configured via {case['via']}: written {want}, enforced {seen}")
         return found[0] if found else None
 
     def _failures(self, case, obs):
